@@ -1,21 +1,31 @@
 """C08 Array inputs are handled elementwise and keep their shape; extra arguments are forwarded."""
 from ..srcmodel import AnalysisError
 from ..ndarr import Arr, InterpRaise
-from ..dv import DV, tags_of, DataDependentInt
+from ..dv import DV, tags_of, DataDependentInt, NONZERO_STEPS
 from ..dvrun import explore, bicomplex_aware
 
-# whole-array predicates (control dependence on more than one element) that are accepted, with the reason
+# whole-array predicates (control dependence on more than one element) that are accepted, with the reason.  An entry names
+# the function that contains the test and what kind of test it is - not its source text, so that `np.any(m)` and `m.any()`
+# are the same entry; a test of another kind, or in another function, is reported and has to be read.
 CONTROL_EXCEPTIONS = {
-    '(np.abs(step) > 0).all()': 'basic generators: a whole step row is dropped when any element has a zero step; with '
-                                'the library default base steps (>= 1.7e-15) and step_nom >= 1 no step is zero, so the '
-                                'filter is column-uniform; pinned to True in the runs (limitation recorded in DESIGN.md)',
-    'np.any(np.isnan(der))': '_add_error_to_outliers: only selects nanpercentile vs percentile, which agree on every '
-                             'NaN-free column (library model)',
-    'np.any(all_nan)': '_get_arg_min: only gates a warning and an np.where whose mask is per column, so columns '
-                       'that are not all-NaN are untouched',
-    'np.iscomplexobj(der)': 'dtype only',
-    'np.iscomplexobj(seq)': 'dtype only',
+    ('step_generators', 'zero-test'): 'basic generators: a whole step row is dropped when any element has a zero step; with '
+                                      'the library default base steps (>= 1.7e-15) and step_nom >= 1 no step is zero, so the '
+                                      'filter is column-uniform; answered "keep" in the runs (limitation recorded in DESIGN.md)',
+    ('limits._Limit._add_error_to_outliers', 'nan-test'): 'only selects nanpercentile vs percentile, which agree on every '
+                                                          'NaN-free column (library model)',
+    ('limits._Limit._get_arg_min', 'nan-test'): 'only gates a warning and a replacement whose mask is per column, so columns '
+                                                'that are not all-NaN are untouched (R-ARGMIN checks exactly that)',
+    ('limits._Limit._add_error_to_outliers', 'dtype-test'): 'dtype only',
+    ('extrapolation.convolve', 'dtype-test'): 'dtype only',
 }
+
+
+def control_exception(fn, kind):
+    for (where_fn, k), why in CONTROL_EXCEPTIONS.items():
+        if k == kind and (fn == where_fn or fn.startswith(where_fn + '.')):
+            return why
+    return None
+
 
 RULES = {
     'R-COLSEP': 'in an abstract run of Derivative.__call__ with an elementwise f, output element c depends (data '
@@ -58,7 +68,7 @@ def run(ctx):
                 n_runs += 1
     rep.notes['runs'] = n_runs
     argmin_table(ctx)
-    rep.notes['control_exception_table'] = CONTROL_EXCEPTIONS
+    rep.notes['control_exception_table'] = {'%s: %s' % k: v for k, v in CONTROL_EXCEPTIONS.items()}
     rep.notes['trusted_base'] = ['python ast', 'ndverif abstract interpreter, data-dependence domain and numpy summaries']
 
 
@@ -157,7 +167,7 @@ def one(ctx, core, shape, method, n, order, full_output, rule_as=None):
     construct = 'core.Derivative.__call__'
     where = core.relpath
     try:
-        ex = explore(ctx.repo, body, pinned={'(np.abs(step) > 0).all()': True})
+        ex = explore(ctx.repo, body, pinned=NONZERO_STEPS)
     except DataDependentInt as exc:
         cols = sorted({t for t in exc.tags if t[0] == 'x'} | {t for t in exc.tags if '-call' in str(t[0])})
         if len([t for t in cols if t[0] == 'x']) > 1 or any('-call' in str(t[0]) for t in cols):
@@ -214,7 +224,9 @@ def one(ctx, core, shape, method, n, order, full_output, rule_as=None):
     # control dependence
     for (text, where_p), tags in ex.control_predicates().items():
         cols = {t for t in tags if t[0] == 'x'}
-        if len(cols) > 1 and text not in CONTROL_EXCEPTIONS:
-            rep.violation(rid('R-COLSEP'), construct, where_p, {'predicate': text, 'depends_on_elements': len(cols)},
+        fn_q, kind = ex.site_info.get((text, where_p), ('', 'other'))
+        if len(cols) > 1 and control_exception(fn_q, kind) is None:
+            rep.violation(rid('R-COLSEP'), construct, where_p, {'predicate': text, 'in_function': fn_q, 'kind': kind,
+                                                                'depends_on_elements': len(cols)},
                           'no whole-array predicate steers the computation (tabled exceptions: %s)'
-                          % sorted(CONTROL_EXCEPTIONS), label, key='control %s' % text)
+                          % sorted('%s: %s' % k for k in CONTROL_EXCEPTIONS), label, key='control %s' % text)
